@@ -18,6 +18,9 @@ def sh(cmd, **kw):
 
 
 def main():
+    import fcntl
+    lock = open(WT + ".lock", "w")
+    fcntl.flock(lock, fcntl.LOCK_EX)          # one seeded run at a time per scratch worktree
     sid, checks = sys.argv[1], sys.argv[2:]
     sd = os.path.join(VERIF, "seeded", sid)
     head = sh("git -C /repo rev-parse HEAD").stdout.strip()
